@@ -455,6 +455,10 @@ def c13(run, scratch):
     if canon is None or len(variants) != r.distinct - 1 - sum(len(p) for p in canon):
         raise tlc.TlcFailure('LexSpace: parsed %d variants of %d states' % (len(variants), r.distinct))
     rng = random.Random(run.seed)
+    # the file an include_bytes line of the data program names, beside the (string) sources
+    os.chdir(scratch)
+    with open('lexblob.bin', 'wb') as f:
+        f.write(bytes(range(7)))
     # cross-line combinations: every line of a program rewritten at once (TLC's variants composed at random)
     byline = {}
     for p, i, t in variants:
@@ -726,6 +730,8 @@ def c15(run, scratch):
                     if verdict == 'ok':
                         continue
                     if verdict == 'accepted':
+                        if res['cls'] == 'either':
+                            continue
                         if res['cls'] == 'duplicate':
                             accepted_dup += 1     # the property speaks of programs that ARE refused
                             continue
